@@ -101,6 +101,8 @@ def mutated_names(nodes):
 class EvalMixin:
     # ------------------------------------------------------------------ importing real values
     def import_value(self, v):
+        if isinstance(v, int) and type(v) not in (int, bool):
+            return TInt(type(v), int(v))
         if v is None or isinstance(v, (bool, int, float, str, bytes, types.FunctionType, type,
                                        types.ModuleType, types.BuiltinFunctionType, types.MethodType,
                                        Sym, Ref, Closure, BoundMethod, BuiltinMethod, range, frozenset)):
@@ -514,10 +516,19 @@ class EvalMixin:
             if isinstance(o, (HList, HDict, HStream, HByteArray)):
                 return BuiltinMethod(v, name)
             raise Undecided("attribute %s of heap %r" % (name, o))
+        if isinstance(v, TInt):
+            for c in v.cls.__mro__:
+                if c in (int, object):
+                    break
+                if name in vars(c):
+                    return self.bind_static(vars(c)[name], v, c)
+            return BuiltinMethod(v.val, name)
         if isinstance(v, SuperProxy):
             mro = type.mro(self.cls_of(v.self_val)) if not isinstance(v.self_val, type) else type.mro(v.self_val)
             i = mro.index(v.after_cls)
             for c in mro[i + 1:]:
+                if c is int and name in vars(c):
+                    return self.int_dunder(v.self_val, name)
                 if name in vars(c):
                     return self.bind_static(vars(c)[name], v.self_val, c)
             raise PyExc(AttributeError)
@@ -555,7 +566,32 @@ class EvalMixin:
                 return getattr(v, "__name__", "<lambda>")
         raise Undecided("attribute %s of %r" % (name, v))
 
+    def int_dunder(self, self_val, name):
+        """super().__lt__ / super().__new__ ... reaching the builtin int"""
+        from .verifier import native
+        m = self
+        cmpn = {"__lt__": "Lt", "__le__": "LtE", "__gt__": "Gt", "__ge__": "GtE", "__eq__": "Eq", "__ne__": "NotEq"}
+        if name == "__new__":
+            @native
+            def new(mach, cls, n=0):
+                if isinstance(n, TInt):
+                    n = n.val
+                if not mach.is_int(n):
+                    raise Undecided("int.__new__ of non-int")
+                return TInt(cls, n)
+            return new
+        if name in cmpn:
+            @native
+            def cmp(mach, other):
+                a = self_val.val if isinstance(self_val, TInt) else self_val
+                b = other.val if isinstance(other, TInt) else other
+                return mach.compare_vals(cmpn[name], a, b)
+            return cmp
+        raise Undecided("super().%s on int" % name)
+
     def cls_of(self, v):
+        if isinstance(v, TInt):
+            return v.cls
         if isinstance(v, Ref):
             o = self.p.deref(v)
             if isinstance(o, HObj):
@@ -1015,6 +1051,8 @@ class EvalMixin:
         k = self.loop_ordinal(n, fr)
         tag = "%s/loop%d" % (fnname, k)
         inv = spec["inv"]
+        if self.reg is not None:
+            fr.env.setdefault("spec", self.reg.spec_module)
         hints = spec.get("types", {})
         ghost_init = spec.get("ghost_init", {})
         for g, e in ghost_init.items():
